@@ -53,6 +53,21 @@ func (s *SwappableDB) Swap(path string, fkConstraints, walEnabled bool) error {
 		return fmt.Errorf("invalid SQLite data")
 	}
 
+	// A file with a valid header may still be unusable. Check that it can actually
+	// be opened before giving up the current database, so a failed swap leaves the
+	// current database in place.
+	cdb, err := OpenWithDriver(s.drv, path, fkConstraints, walEnabled)
+	if err != nil {
+		RemoveWALFiles(path)
+		return fmt.Errorf("open SQLite file failed: %s", err)
+	}
+	if err := cdb.Close(); err != nil {
+		return fmt.Errorf("failed to close SQLite file after check: %s", err)
+	}
+	if err := RemoveWALFiles(path); err != nil {
+		return fmt.Errorf("failed to remove WAL files after check: %s", err)
+	}
+
 	s.dbMu.Lock()
 	defer s.dbMu.Unlock()
 	if err := s.db.Close(); err != nil {
